@@ -291,6 +291,16 @@ def check(ctx):
     # (C01 R1.4) and the stochastic mass-action forms must be the combinatorial ones (C01 R1.1) - re-emitted here
     from . import c01
     c01.reemit(ctx, 'R5.3-stochastic-rates', 'stochastic', ('compute_stochastic_propensities', 'compute_stochastic_volume_propensities'))
-    ctx.floor('R5.3-stochastic-rates', 40)
+    # in safe mode the buffer is filled by a different loop: every reaction gets either its stochastic rate at the current state or 0
+    # (never a value left from an earlier state) - C06 R6.4-safe-eval, re-emitted here for the stochastic slots
+    from ..core import SubCtx
+    from . import c06
+    prog.mod('lineage'); prog.mod('lineage.pxd')
+    sub = SubCtx(ctx)
+    c06.check_safe_evaluators(sub)
+    for rule, key, ok, where, what, detail in sub.got:
+        if rule == 'R6.4-safe-eval' and 'stochastic' in key and 'Lineage' not in key:
+            ctx.ob('R5.3-stochastic-rates', '%s/%s' % (rule, key), ok, where, what, detail)
+    ctx.floor('R5.3-stochastic-rates', 42)
     ctx.floor('R5.1-primitive', 4)
     ctx.floor('R5.2-order', 4)
